@@ -80,20 +80,26 @@ func (fx *FnExec) Run() (obls []*Obligation, err error) {
 	fx.cur = entry
 	fx.curBlock = fn.Blocks[0]
 	// parameters
-	for _, p := range fn.Params {
+	cpn := contractParamNames(displayName(fn), fn)
+	for i, p := range fn.Params {
 		v := Val{T: p.Type(), S: fx.havoc("p_"+sanitize(p.Name()), fx.sortOf(p.Type()))}
 		fx.assumeGlobal(fx.typeInvariant(p.Type(), v.S))
 		fx.assumeGlobal(fx.refInv(p.Type(), v.S))
 		fx.regs[p] = v
 		fx.params[p.Name()] = v
+		if cpn[i] != p.Name() {
+			// the parameter was renamed since the contracts were written: both names mean it
+			fx.params[cpn[i]] = v
+			fx.notes = append(fx.notes, "renamed parameter:"+cpn[i]+"->"+p.Name())
+		}
 	}
 	// default: receiver and pointer parameters are non-nil unless the contract says nilable
 	for i, p := range fn.Params {
 		if _, ok := p.Type().Underlying().(*types.Pointer); ok {
-			if fx.C != nil && fx.C.Nilable[p.Name()] {
+			if fx.C != nil && (fx.C.Nilable[p.Name()] || fx.C.Nilable[cpn[i]]) {
 				continue
 			}
-			if i == 0 && fn.Signature.Recv() != nil || (fx.C != nil && fx.C.NonNil[p.Name()]) {
+			if i == 0 && fn.Signature.Recv() != nil || (fx.C != nil && (fx.C.NonNil[p.Name()] || fx.C.NonNil[cpn[i]])) {
 				fx.assumeGlobal("(> " + fx.regs[p].S + " 0)")
 			}
 		}
